@@ -94,10 +94,39 @@ const (
 
 var c18Once sync.Once
 
+// c18Sink is the logger the package under test writes to. It discards
+// everything; while a close-vs-subscribe round has a pin installed it calls the
+// pin at the factory's own "Stopping shared informer" line (the moment between
+// the last reference being given up and the informer being stopped and
+// forgotten), which lets the round hold the closing goroutine exactly there.
+type c18Sink struct{}
+
+var c18Pin atomic.Value // of func()
+
+func c18CurrentPin() func() {
+	if f, ok := c18Pin.Load().(func()); ok {
+		return f
+	}
+	return nil
+}
+
+func (c18Sink) Init(logr.RuntimeInfo)                    {}
+func (c18Sink) Enabled(int) bool                         { return c18CurrentPin() != nil }
+func (c18Sink) Error(error, string, ...interface{})      {}
+func (s c18Sink) WithValues(...interface{}) logr.LogSink { return s }
+func (s c18Sink) WithName(string) logr.LogSink           { return s }
+func (c18Sink) Info(_ int, msg string, _ ...interface{}) {
+	if strings.Contains(msg, "Stopping shared informer") {
+		if f := c18CurrentPin(); f != nil {
+			f()
+		}
+	}
+}
+
 // ---- operations ----
 
 type c18Op struct {
-	Kind string `json:"kind"` // sub | add | rem | close | ev | tick | addwin | remwin | subu | reveal
+	Kind string `json:"kind"` // sub | add | rem | close | ev | tick | addwin | remwin | subu | reveal | clsub
 	R    int    `json:"r,omitempty"`
 	S    int    `json:"s,omitempty"`
 	H    int    `json:"h,omitempty"`
@@ -107,6 +136,9 @@ type c18Op struct {
 	// addwin = add(S,H) whose handler is held inside its Blk-th replay callback
 	// while the event (R,EK,O) is emitted, then released
 	Blk int `json:"blk,omitempty"`
+	// clsub = close(S) and sub(R) issued at the same time from two goroutines;
+	// Pin: the closing goroutine is held at the factory's "Stopping shared informer" line
+	Pin bool `json:"pin,omitempty"`
 }
 
 func (o c18Op) String() string {
@@ -134,6 +166,8 @@ func (o c18Op) String() string {
 		return fmt.Sprintf("subunknown(r%d)", o.R)
 	case "reveal":
 		return fmt.Sprintf("reveal(r%d)", o.R)
+	case "clsub":
+		return fmt.Sprintf("close(s%d)||sub(r%d)[pin=%v]", o.S, o.R, o.Pin)
 	}
 	return "?"
 }
@@ -169,6 +203,9 @@ type c18Spec struct {
 	// Conc > 0: the first Conc operations (all Subscribe of one resource) are
 	// issued by Conc goroutines released together
 	Conc int `json:"conc,omitempty"`
+	// Solo: run this scenario alone, after the worker pool (it times goroutines
+	// against each other, or installs the log pin)
+	Solo bool `json:"solo,omitempty"`
 }
 
 func (s c18Spec) hasOwn() bool {
@@ -297,7 +334,7 @@ func (s *c18Sentinel) seen() int {
 }
 
 func newC18World(nres int) *c18World {
-	c18Once.Do(func() { logging.Logger = logr.Discard() })
+	c18Once.Do(func() { logging.Logger = logr.New(c18Sink{}) })
 	srv := verifsim.NewServer(c18Resources)
 	cfg := srv.RestConfig()
 	tr := &c18Transport{srv: srv, hidden: map[string]bool{c18Resources[c18LateResource].Resource: true}}
@@ -519,6 +556,9 @@ func (rn *c18Runner) do(_ int, op c18Op) {
 		return
 	case "remwin":
 		rn.removeWindow(op)
+		return
+	case "clsub":
+		rn.closeVsSubscribe(op)
 		return
 	case "reveal":
 		if !rn.w.reveal(op.R) {
@@ -763,6 +803,121 @@ func (rn *c18Runner) addWindow(op c18Op) {
 	rn.steps = append(rn.steps, st1, st2)
 	if inWindow {
 		rn.windows = append(rn.windows, len(rn.steps)-1)
+	}
+}
+
+// closeVsSubscribe: Close() of subscription S - the last one open on resource R -
+// and Resource(R) run at the same time in two goroutines. Unpinned, they are
+// released together by a spin barrier; pinned, the closing goroutine is held at
+// the factory's "Stopping shared informer" log line until the subscriber has
+// returned (or, on a tree where that line is written under the factory mutex,
+// until a bounded wait has shown that the subscriber waits for it). Both orders
+// are legitimate: the new subscription either joined the old informer before it
+// was given up (then it keeps running) or got a fresh one; the harness reads the
+// order off the implementation (same sharedResourceInformer or not) and emits
+// the two steps in that order. The server's counters are read once, after both
+// returned: the first step carries -1 (not observed).
+func (rn *c18Runner) closeVsSubscribe(op c18Op) {
+	w := rn.w
+	res := c18Resources[op.R]
+	old := rn.subs[op.S]
+	oldSRI := old.sharedResourceInformer
+	stClose := c18Step{op: c18Op{Kind: "close", S: op.S}}
+	stSub := c18Step{op: c18Op{Kind: "sub", R: op.R}}
+	closeDone, subDone := make(chan struct{}), make(chan struct{})
+	parked, release := make(chan struct{}), make(chan struct{})
+	var ri *ResourceInformer
+	var err error
+	var arrived int32
+	if op.Pin {
+		var once sync.Once
+		c18Pin.Store(func() {
+			mine := false
+			once.Do(func() { mine = true })
+			if mine {
+				close(parked)
+				select {
+				case <-release:
+				case <-time.After(3 * time.Second):
+				}
+			}
+		})
+	}
+	go func() {
+		defer close(closeDone)
+		if !op.Pin {
+			atomic.AddInt32(&arrived, 1)
+			for atomic.LoadInt32(&arrived) < 2 {
+			}
+		}
+		rn.guarded(&stClose, func() { old.Close() })
+	}()
+	go func() {
+		defer close(subDone)
+		if op.Pin {
+			select {
+			case <-parked:
+			case <-closeDone:
+			case <-time.After(2 * time.Second):
+			}
+		} else {
+			atomic.AddInt32(&arrived, 1)
+			for atomic.LoadInt32(&arrived) < 2 {
+			}
+		}
+		rn.guarded(&stSub, func() { ri, err = w.factory.Resource(res.APIVersion(), res.Resource) })
+	}()
+	if op.Pin {
+		// a subscriber that is not serialised behind the close returns now
+		select {
+		case <-subDone:
+		case <-time.After(25 * time.Millisecond):
+		}
+		close(release)
+	}
+	<-closeDone
+	<-subDone
+	if op.Pin {
+		c18Pin.Store((func())(nil))
+	}
+	if err != nil || ri == nil {
+		panic(fmt.Sprintf("c18: Resource(): %v", err)) // recovered by c18Run: anomaly 4
+	}
+	rn.subs = append(rn.subs, ri)
+	rn.subRes = append(rn.subRes, op.R)
+	c18Until(2*time.Second, ri.Informer().HasSynced)
+	c18Until(500*time.Millisecond, func() bool { return w.watchCount(op.R) > 0 })
+	// let the stop of the old informer and the start of a new one settle
+	last, since := w.watchCount(op.R), time.Now()
+	for time.Since(since) < 5*time.Millisecond {
+		time.Sleep(250 * time.Microsecond)
+		if n := w.watchCount(op.R); n != last {
+			last, since = n, time.Now()
+		}
+	}
+	if sri := w.curSRI(op.R); sri != nil && w.watchCount(op.R) > 0 {
+		if !w.barrier(op.R, sri) {
+			stSub.issues = append(stSub.issues, "barrier-timeout")
+		}
+	}
+	first, second := &stClose, &stSub
+	if ri.sharedResourceInformer == oldSRI {
+		first, second = &stSub, &stClose // joined the old informer before it was given up
+	}
+	second.dels = rn.rec.take()
+	for r := 0; r < w.nres; r++ {
+		first.watch = append(first.watch, -1)
+		first.lists = append(first.lists, -1)
+		second.watch = append(second.watch, w.watchCount(r))
+		second.lists = append(second.lists, w.listCount(r))
+	}
+	rn.steps = append(rn.steps, *first, *second)
+	// the reference count must be the number of open subscriptions: the new one
+	w.factory.mutex.Lock()
+	ref := w.factory.refCount[w.key(op.R)]
+	w.factory.mutex.Unlock()
+	if ref != 1 {
+		rn.anoms = append(rn.anoms, 1)
 	}
 }
 
@@ -1195,6 +1350,32 @@ func c18UnknownSpec(r *vh.Rng, seed uint64) c18Spec {
 		g.actorMove(0, 4, 0)
 	}
 	return g.spec("unknown-resource", seed)
+}
+
+// close-vs-subscribe family: the last subscriber closes while another controller
+// subscribes to the same resource; whichever way it goes, the new subscription
+// must work (replay, next event), hold the one reference, and close cleanly.
+func c18CloseVsSubscribeSpec(round int, pin bool) c18Spec {
+	r := round % 2
+	ops := []c18Op{{Kind: "sub", R: r}}
+	h := 0
+	if round%3 != 0 {
+		ops = append(ops, c18Op{Kind: "add", S: 0, H: h})
+		h++
+	}
+	if round%4 < 2 {
+		ops = append(ops, c18Op{Kind: "ev", R: r, EK: "ADDED", O: 0})
+	}
+	ops = append(ops, c18Op{Kind: "clsub", S: 0, R: r, Pin: pin},
+		c18Op{Kind: "add", S: 1, H: h},
+		c18Op{Kind: "ev", R: r, EK: "ADDED", O: 1},
+		c18Op{Kind: "close", S: 1},
+		c18Op{Kind: "sub", R: r}, c18Op{Kind: "close", S: 2})
+	stream := "close-vs-subscribe"
+	if pin {
+		stream += "-pinned"
+	}
+	return c18Spec{NRes: 2, Ops: ops, Stream: stream, Solo: true, Features: []string{"close-vs-subscribe"}}
 }
 
 func c18ConcurrentSpec(round, k int, full bool) c18Spec {
@@ -1710,6 +1891,17 @@ func TestVerif_C18(t *testing.T) {
 		for i := 0; i < 10*rounds; i++ {
 			push(fmt.Sprintf("ps%d", i), c18ConcurrentSpec(i, 4+i%9, false))
 		}
+		// close-vs-subscribe family (both tiers): last Close || Resource of the same key
+		pinned, unpinned := 40, 120
+		if env.Tier == "thorough" {
+			pinned, unpinned = 200, 1500
+		}
+		for i := 0; i < pinned; i++ {
+			push(fmt.Sprintf("cp%d", i), c18CloseVsSubscribeSpec(i, true))
+		}
+		for i := 0; i < unpinned; i++ {
+			push(fmt.Sprintf("cu%d", i), c18CloseVsSubscribeSpec(i, false))
+		}
 		// replay-window leg (both tiers): an object appears while a handler is
 		// inside its add-time replay; window in the first / a middle / the last callback
 		wrounds := 2
@@ -1819,7 +2011,7 @@ func TestVerif_C18(t *testing.T) {
 		}()
 	}
 	for i := range specs {
-		if specs[i].Conc == 0 {
+		if specs[i].Conc == 0 && !specs[i].Solo {
 			next <- i
 		}
 	}
@@ -1827,7 +2019,7 @@ func TestVerif_C18(t *testing.T) {
 	wg.Wait()
 	// the concurrent rounds run alone, so that their goroutines really run at once
 	for i := range specs {
-		if specs[i].Conc > 0 {
+		if specs[i].Conc > 0 || specs[i].Solo {
 			finish(i, c18Run(specs[i]))
 		}
 	}
